@@ -101,6 +101,13 @@ InitC17 ==
            sc = Sc(<<<<QArr, 1>>, <<QRaw, 2>>>>,
                    << <<1, 1, 0, <<<<"bh", n>>, <<"bd", SubSeq(BlkData(n), 1, k)>>>>>>, <<2, 1, 0, <<<<"bd", [i \in 1..m |-> 119 + i]>>, <<"r", "i32", 7>>>>>> >>,
                    256, IF two THEN <<QArr \o LF, QRaw \o LF>> ELSE <<QArr \o <<59>> \o QRaw \o LF>>, [hdrs |-> <<>>])
+  \/ \E n \in 1..3, m \in 1..3, k \in 1..3 :      \* a block (or a binary array) sent in one call is complete: data that follows it is refused
+        /\ Part = (n + m + k) % NParts
+        /\ sc = ScArr(<< IF k = 1 THEN <<"r", "blk", BlkData(n)>> ELSE <<"r", "au8", k - 1, n, [i \in 1..n |-> <<64 + i>>]>>,
+                          <<"bd", [i \in 1..m |-> 119 + i]>>, <<"r", "i32", 7>> >>)
+  \/ \E n \in 1..2, w \in 1..2 : Part = (n + w) % NParts /\     \* refused twice; refused after the handler reported something else
+        sc = ScArr(<< <<"bh", n>> >> \o (IF w = 1 THEN <<>> ELSE << <<"e", 110>> >>) \o
+                   << <<"bd", [i \in 1..(n + 1) |-> 66]>>, <<"bd", [i \in 1..(n + 2) |-> 67]>>, <<"bd", BlkData(n)>>, <<"r", "i32", 7>> >>)
   \/ \E n \in BigLens : Part = n % NParts /\ sc = ScArr(<< <<"bh", n>> >>)
   \/ Part = 0 /\ sc = ScArr(<< <<"r", "blk", [i \in 1..66000 |-> (i * 7) % 251]>>, <<"r", "i32", 7>> >>)     \* a block longer than 65535 bytes, with its data
 (* C01: every byte string up to MaxUnits + 1 bytes over one representative per character class, bare and as the data of a header, *)
